@@ -429,8 +429,11 @@ func (te *TEnv) nilOf(other TV) string {
 		return "(mi!nil " + other.t + ")"
 	case sortAddr:
 		return "(= " + other.t + " addr!nil)"
+	case sortInt:
+		return "(= " + other.t + " 0)"
 	}
-	return "(= " + other.t + " 0)"
+	te.fail("comparison of a %s value with nil", other.sort)
+	return "false"
 }
 
 func (te *TEnv) binary(x *EBin) TV {
@@ -498,6 +501,13 @@ func (te *TEnv) call(x *ECall) TV {
 		// call-by-value in the current state: arguments are translated once and named, so that a
 		// macro body mentioning a parameter several times does not duplicate the argument term.
 		inner := *te
+		if m.Pkg != "" {
+			for _, sp := range vc.eng.ssaPkgs {
+				if sp != nil && sp.Pkg.Path() == m.Pkg {
+					inner.pkg = sp
+				}
+			}
+		}
 		inner.vars = make(map[string]TV, len(te.vars)+len(m.Params))
 		for k, v := range te.vars {
 			inner.vars[k] = v
@@ -883,6 +893,8 @@ func (te *TEnv) refFacts(term string, t types.Type, depth int, out *[]string) {
 		*out = append(*out, "(<= "+term+" "+te.st.alloc+")", "(>= "+term+" 0)")
 	case *types.Slice:
 		*out = append(*out, "(<= (sref "+term+") "+te.st.alloc+")", "(>= (slen "+term+") 0)", "(>= (soff "+term+") 0)")
+	case *types.Interface:
+		*out = append(*out, "(<= (iref "+term+") "+te.st.alloc+")")
 	}
 }
 
